@@ -70,6 +70,10 @@ theorem facts_sound (v : View) : ∀ c : Cond,
   | int f c k => constructor <;> intro _ o ho <;> simp [Cond.posFacts, Cond.negFacts] at ho
   | mask f m => constructor <;> intro _ o ho <;> simp [Cond.posFacts, Cond.negFacts] at ho
   | strEq f l => constructor <;> intro _ o ho <;> simp [Cond.posFacts, Cond.negFacts] at ho
+  | strP f q => constructor <;> intro _ o ho <;> simp [Cond.posFacts, Cond.negFacts] at ho
+  | maskEq f m k => constructor <;> intro _ o ho <;> simp [Cond.posFacts, Cond.negFacts] at ho
+  | time f op t => constructor <;> intro _ o ho <;> simp [Cond.posFacts, Cond.negFacts] at ho
+  | time2 f op g => constructor <;> intro _ o ho <;> simp [Cond.posFacts, Cond.negFacts] at ho
   | isNil f => constructor <;> intro _ o ho <;> simp [Cond.posFacts, Cond.negFacts] at ho
   | len f c k => constructor <;> intro _ o ho <;> simp [Cond.posFacts, Cond.negFacts] at ho
   | anyS f p => constructor <;> intro _ o ho <;> simp [Cond.posFacts, Cond.negFacts] at ho
@@ -192,6 +196,10 @@ theorem safeC_sound (v : View) : ∀ (c : Cond) (g : List Oid), Present v g → 
   | int f c k => intros; simp [evalC]
   | mask f m => intros; simp [evalC]
   | strEq f l => intros; simp [evalC]
+  | strP f q => intros; simp [evalC]
+  | maskEq f m k => intros; simp [evalC]
+  | time f op t => intros; simp [evalC]
+  | time2 f op g => intros; simp [evalC]
   | isNil f => intros; simp [evalC]
   | len f c k => intros; simp [evalC]
   | anyS f p => intros; simp [evalC]
@@ -249,6 +257,7 @@ structure Similar (v w : View) : Prop where
   lstrs : ∀ f x, x ∈ (v.list f).strs ↔ x ∈ (w.list f).strs
   loids : ∀ f x, x ∈ (v.list f).oids ↔ x ∈ (w.list f).oids
   lints : ∀ f x, x ∈ (v.list f).ints ↔ x ∈ (w.list f).ints
+  times : ∀ f, v.time f = w.time f
   exts : ∀ o, v.ext? o = w.ext? o
 
 theorem any_congr_mem {α : Type} (p : α → Bool) (l l' : List α) (h : ∀ x, x ∈ l ↔ x ∈ l') : l.any p = l'.any p := by
@@ -266,6 +275,10 @@ theorem evalC_similar {v w : View} (h : Similar v w) : ∀ c : Cond, evalC v c =
   | int f c k => simp [evalC, h.ints]
   | mask f m => simp [evalC, h.ints]
   | strEq f l => simp [evalC, h.strs]
+  | strP f q => simp [evalC, h.strs]
+  | maskEq f m k => simp [evalC, h.ints]
+  | time f op t => simp [evalC, h.times]
+  | time2 f op g => simp [evalC, h.times]
   | isNil f => simp [evalC, h.nils]
   | len f c k => simp [evalC, h.lens]
   | anyS f p => simp only [evalC]; rw [any_congr_mem _ _ _ (h.lstrs f)]
@@ -297,7 +310,7 @@ theorem similar_of_perm (v : View) (f0 : Nat) (lv : ListVal) (strs' : List Bytes
   have key : ∀ f, ({ v with lists := (f0, { lv with strs := strs', oids := oids', ints := ints' }) :: v.lists } : View).list f
       = if f0 == f then { lv with strs := strs', oids := oids', ints := ints' } else v.list f := by
     intro f; simp [View.list, lookup]
-  refine ⟨fun _ => rfl, fun _ => rfl, fun _ => rfl, ?_, ?_, ?_, ?_, ?_, fun _ => rfl⟩
+  refine ⟨fun _ => rfl, fun _ => rfl, fun _ => rfl, ?_, ?_, ?_, ?_, ?_, fun _ => rfl, fun _ => rfl⟩
   · intro f; rw [key]; by_cases hf : f0 = f
     · subst hf; simp [hv]
     · simp [hf]
@@ -319,7 +332,61 @@ example : Similar { lists := [(3, { isNil := false, len := 2, strs := [[97], [98
                   { lists := [(3, { isNil := false, len := 2, strs := [[98], [97]] })] } := by
   have := similar_of_perm { lists := [(3, { isNil := false, len := 2, strs := [[97], [98]] })] } 3
     { isNil := false, len := 2, strs := [[97], [98]] } [[98], [97]] [] [] (by simp [View.list, lookup]) (List.Perm.swap _ _ _) (List.Perm.refl _) (List.Perm.refl _)
-  refine ⟨this.bools, this.ints, this.strs, ?_, ?_, ?_, ?_, ?_, this.exts⟩ <;> intro f <;> simp [View.list, lookup] <;> by_cases hf : 3 = f <;> simp [hf] <;> try (intro x; constructor <;> rintro (h | h) <;> simp [h])
+  refine ⟨this.bools, this.ints, this.strs, ?_, ?_, ?_, ?_, ?_, this.times, this.exts⟩ <;> intro f <;> simp [View.list, lookup] <;> by_cases hf : 3 = f <;> simp [hf] <;> try (intro x; constructor <;> rintro (h | h) <;> simp [h])
+
+/-! ### mirror images -/
+
+/-- `w` shows under the names `f`, `o` what `v` shows under `ρ f`, `σ o` -/
+structure Mirrors (ρ : Nat → Nat) (σ : Oid → Oid) (v w : View) : Prop where
+  bools : ∀ f, w.bool f = v.bool (ρ f)
+  ints : ∀ f, w.int f = v.int (ρ f)
+  strs : ∀ f, w.str f = v.str (ρ f)
+  lists : ∀ f, w.list f = v.list (ρ f)
+  times : ∀ f, w.time f = v.time (ρ f)
+  exts : ∀ o, w.ext? o = v.ext? (σ o)
+
+theorem evalC_rename {ρ σ} {v w : View} (h : Mirrors ρ σ v w) : ∀ c : Cond, evalC v (c.rename ρ σ) = evalC w c := by
+  intro c
+  induction c with
+  | const b => rfl
+  | bool f => simp [Cond.rename, evalC, h.bools]
+  | int f c k => simp [Cond.rename, evalC, h.ints]
+  | mask f m => simp [Cond.rename, evalC, h.ints]
+  | strEq f l => simp [Cond.rename, evalC, h.strs]
+  | strP f q => simp [Cond.rename, evalC, h.strs]
+  | maskEq f m k => simp [Cond.rename, evalC, h.ints]
+  | time f op t => simp [Cond.rename, evalC, h.times]
+  | time2 f op g => simp [Cond.rename, evalC, h.times]
+  | isNil f => simp [Cond.rename, evalC, h.lists]
+  | len f c k => simp [Cond.rename, evalC, h.lists]
+  | anyS f q => simp [Cond.rename, evalC, h.lists]
+  | anyO f os => simp [Cond.rename, evalC, h.lists]
+  | anyI f is => simp [Cond.rename, evalC, h.lists]
+  | ext o => simp [Cond.rename, evalC, h.exts]
+  | crit o => simp [Cond.rename, evalC, h.exts]
+  | not c ih => simp [Cond.rename, evalC, ih]
+  | and a b iha ihb => simp [Cond.rename, evalC, iha, ihb]
+  | or a b iha ihb => simp [Cond.rename, evalC, iha, ihb]
+
+theorem evalS_rename {ρ σ} {v w : View} (h : Mirrors ρ σ v w) : ∀ s : Stmt, evalS v (s.rename ρ σ) = evalS w s := by
+  intro s
+  induction s with
+  | ret s0 => rfl
+  | ite c t e iht ihe => simp [Stmt.rename, evalS, evalC_rename h c, iht, ihe]
+
+/-- **A rule whose terms are the renamed terms of its twin answers, on any certificate, what the twin answers on
+    the mirror-image certificate** (C20 for duplicated rules inside the fragment). -/
+theorem twin_agrees (a b : Rule) (ρ : Nat → Nat) (σ : Oid → Oid)
+    (ha : b.applies = a.applies.rename ρ σ) (hb : b.body = a.body.rename ρ σ) {v w : View} (h : Mirrors ρ σ v w) :
+    b.run v = a.run w := by
+  unfold Rule.run
+  rw [ha, hb, evalC_rename h, evalS_rename h]
+
+/-- in particular, on a certificate that is its own mirror image (the two fields carry the same content) both
+    twins reach the same conclusion -/
+theorem twin_agrees_same (a b : Rule) (ρ : Nat → Nat) (σ : Oid → Oid)
+    (ha : b.applies = a.applies.rename ρ σ) (hb : b.body = a.body.rename ρ σ) {v : View} (h : Mirrors ρ σ v v) :
+    b.run v = a.run v := twin_agrees a b ρ σ ha hb h
 
 /-! ### the regenerated table -/
 open Generated
@@ -371,6 +438,35 @@ def sigFields : List String :=
 
 theorem no_signature_field :
     bodyFieldNames.all (fun p => !(sigFields.contains p.1)) = true := by decide
+
+/-! duplicated rules inside the fragment: the twin's terms are the renamed terms (decided on the regenerated table) -/
+
+def fieldId (n : String) : Nat := bodyFieldNames.findIdx (fun p => p.1 == n)
+def swapField (a b : String) (f : Nat) : Nat := if f == fieldId a then fieldId b else f
+def swapOid (a b : Oid) (o : Oid) : Oid := if o == a then b else o
+def ruleNamed (n : String) : Option Rule := bodyRules.find? (fun r => r.name == n)
+def oidSAN : Oid := [2, 5, 29, 17]
+def oidIAN : Oid := [2, 5, 29, 18]
+
+/-- `b` is `a` renamed — or one of them is no longer inside the fragment (then the pair is judged by C20's search) -/
+def isTwin (a b : String) (ρ : Nat → Nat) (σ : Oid → Oid) : Bool :=
+  match ruleNamed a, ruleNamed b with
+  | some ra, some rb => decide (rb.applies = ra.applies.rename ρ σ) && decide (rb.body = ra.body.rename ρ σ)
+  | _, _ => true
+
+/-- the Mozilla and the BR prohibition of DSA keys are the same rule, term for term -/
+theorem dsa_twins : isTwin "e_prohibit_dsa_usage" "e_br_prohibit_dsa_usage" id id = true := by decide +kernel
+
+/-- three subjectAltName rules and their issuerAltName copies -/
+theorem san_ian_twins :
+    isTwin "e_ext_san_space_dns_name" "e_ext_ian_space_dns_name" (swapField "DNSNames" "IANDNSNames") (swapOid oidSAN oidIAN) = true
+    ∧ isTwin "e_san_bare_wildcard" "e_ian_bare_wildcard" (swapField "DNSNames" "IANDNSNames") (swapOid oidSAN oidIAN) = true
+    ∧ isTwin "e_san_dns_name_starts_with_period" "e_ian_dns_name_starts_with_period" (swapField "DNSNames" "IANDNSNames") (swapOid oidSAN oidIAN) = true := by
+  decide +kernel
+
+/-- the pairs are really in the table today (the statements above are not vacuous) -/
+example : (ruleNamed "e_prohibit_dsa_usage").isSome ∧ (ruleNamed "e_ext_ian_space_dns_name").isSome
+    ∧ (ruleNamed "e_ian_bare_wildcard").isSome ∧ (ruleNamed "e_ian_dns_name_starts_with_period").isSome := by decide +kernel
 
 /-- non-vacuity: the table is populated, with rules of all three prefixes and rules that use `crit` guards -/
 example : bodyRules.length ≥ 100 ∧ bodyRules.any (fun r => prefixOfName r.nameB == 1) ∧ bodyRules.any (fun r => prefixOfName r.nameB == 2)
